@@ -456,6 +456,27 @@ pub fn main(out: &mut Out, o: &Opts) {
         let filt = *rng.pick(&["a", "t", "f"]);
         out.emit("dotnamed", &Sx::l(vec![Sx::a(filt), text_sx(&f)]).show(), &real_dotnamed(filt, &f));
     }
+    // fixed points whose intermediate iterates survive inside the answer, followed by a re-use of the same sub-functions,
+    // under all six variable orders (fixed by a tautology prefix that mentions the variables in that order)
+    {
+        let perms = [["a", "y", "x"], ["a", "x", "y"], ["y", "a", "x"], ["y", "x", "a"], ["x", "a", "y"], ["x", "y", "a"]];
+        let bodies = [
+            "lfp Z # (x | (y & exists x # Z))", "gfp Z # (x & (y | forall x # Z))", "lfp Z # (a | (y & Z) | (x & exists a # Z))",
+            "lfp Z # ((a & x) | (y & exists a, x # Z))", "gfp Z # ((a | x) & (y | forall a # Z))", "lfp Z # (x | (y & exists x # Z) | (a & exists y # Z))",
+            "lfp Z # (x & y) | (a & exists x, y # Z)", "lfp Z # gfp W # (x | (y & exists x # Z)) & (W | a)",
+        ];
+        let reuse = ["& (a | x)", "| (y & x)", "& x", "^ y", "& (x | y)", "| (a & -x)", "<=> (x | y)"];
+        for (k, pm) in perms.iter().enumerate() {
+            let prefix = format!("(({0} | -{0}) & ({1} | -{1}) & ({2} | -{2}))", pm[0], pm[1], pm[2]);
+            for (i, b) in bodies.iter().enumerate() {
+                for (j, r) in reuse.iter().enumerate() {
+                    let f = format!("{prefix} & (({b}) {r})");
+                    let filt = ["a", "t", "f"][(i + j + k) % 3];
+                    out.emit("dotnamed", &Sx::l(vec![Sx::a(filt), text_sx(&f)]).show(), &real_dotnamed(filt, &f));
+                }
+            }
+        }
+    }
     // parse trees: every node kind, repeated sub-terms
     for f in [
         "a", "-a", "a & a", "(a | b) & (a | b)", "[a, a, b] = 2", "[a, b] < [b, a, a]", "exists a, b # a & b", "forall # a", "lfp x # x | a",
